@@ -23,6 +23,11 @@ import tlc
 from tlc import Raw
 
 SPEC_MC = os.path.join(tlc.SPECS, 'SchedMC.tla')
+SPEC_MC_ANY = os.path.join(tlc.SPECS, 'SchedMCAny.tla')
+
+
+def _spec_for(configs):
+    return SPEC_MC_ANY if configs.startswith('MC_Any') else SPEC_MC
 TRACE = os.path.join(tlc.SPECS, 'SchedTrace.tla')
 
 INV_C01 = ['C01_DepsFinal', 'C01_PayloadVisible', 'C01_RunningState']
@@ -44,7 +49,7 @@ def model_check(ctx, wd, name, n, w, configs, invariants, *, atomic=True, deadlo
                 expect_violation=None, coverage=True, timeout=1700, calls=1):
     cfg = tlc.write_cfg(os.path.join(wd, name + '.cfg'), spec=spec, constants=_consts(n, w, configs, atomic, calls),
                         invariants=invariants, properties=properties, deadlock=deadlock)
-    res = tlc.run(SPEC_MC, cfg, coverage=coverage, timeout=timeout)
+    res = tlc.run(_spec_for(configs), cfg, coverage=coverage, timeout=timeout)
     ctx.tlc(res, 'Sched/' + name)
     if expect_violation is not None:
         if not res.violation or res.violation[1] not in expect_violation:
@@ -193,7 +198,7 @@ def simulate_and_replay(ctx, wd, name, n, w, configs, num, depth, seed, calls=1)
     sim = os.path.join(wd, 'sim_' + name)
     os.makedirs(sim, exist_ok=True)
     cfg = tlc.write_cfg(os.path.join(wd, name + '_sim.cfg'), constants=_consts(n, w, configs, calls=calls), deadlock=False)
-    res = tlc.run(SPEC_MC, cfg, workers=1, simulate=dict(num=num, file=os.path.join(sim, 'b')), depth=depth, seed=seed,
+    res = tlc.run(_spec_for(configs), cfg, workers=1, simulate=dict(num=num, file=os.path.join(sim, 'b')), depth=depth, seed=seed,
                   coverage=False, timeout=900)
     behs = tlc.read_sim_files(os.path.join(sim, 'b'))
     traces = []
@@ -451,15 +456,25 @@ def _witnesses(ctx, wd, wits, n, w, configs):
             else:
                 wit, n, w, configs = wit
         cfg = tlc.write_cfg(os.path.join(wd, wit + '.cfg'), constants=_consts(n, w, configs, calls=calls), invariants=[wit], deadlock=False)
-        res = tlc.run(SPEC_MC, cfg, coverage=False, timeout=900)
+        res = tlc.run(_spec_for(configs), cfg, coverage=False, timeout=900)
         ctx.tlc(res, 'Sched/witness/' + wit)
         if res.violation != ('invariant', wit):
             raise tlc.MachineryError('witness %s is not reachable in Sched.tla (vacuous model?)' % wit)
 
 
+def _tick(ctx, what, _t=[None]):
+    now = time.time()
+    if _t[0] is not None:
+        ctx.cov.setdefault('phases_s', {})[what] = round(now - _t[0], 1)
+        if os.environ.get('VERIF_VERBOSE'):
+            print('  phase %-30s %.1fs' % (what, now - _t[0]), flush=True)
+    _t[0] = now
+
+
 def _common(ctx, invs, mc_runs, witnesses, impl_plan, sim_plan, dfs_plan):
     import schedrun
     schedrun.load()
+    _tick(ctx, 'start')
     wd = tlc.workdir('sched')
     ctx.assume('context switches only at lock acquisitions / blocking operations (all shared state of the backend is '
                'protected by the environment lock, the queue or the condition variable, or is one GIL-atomic dict operation)')
@@ -472,10 +487,12 @@ def _common(ctx, invs, mc_runs, witnesses, impl_plan, sim_plan, dfs_plan):
                 tlc.check_coverage(res, [a for a in ACTIONS if not (a == 'MWake' and n == 1)], 'Sched/' + name)
         except ModelViolation as mv:
             handle_model_violation(ctx, mv, n, w)
+    _tick(ctx, 'model checking')
     _witnesses(ctx, wd, witnesses, 3 if not ctx.quick else 2, 2, 'MC_DagEmpty3' if not ctx.quick else 'MC_DagEmptyAll')
     # negative self-test of the model: the pre-fix publication order must break C01
     model_check(ctx, wd, 'selftest_nonatomic', 2, 2, 'MC_DagEmpty3', ['C01_PayloadVisible'], atomic=False,
                 expect_violation=['C01_PayloadVisible'], coverage=False)
+    _tick(ctx, 'witnesses + selftest')
     # spec -> code
     all_groups = {}
     for item in sim_plan:
@@ -485,6 +502,7 @@ def _common(ctx, invs, mc_runs, witnesses, impl_plan, sim_plan, dfs_plan):
         all_groups.setdefault((n, w, calls), []).extend(traces)
         ctx.cov['replayed_behaviours'] = ctx.cov.get('replayed_behaviours', 0) + len(traces)
         ctx.cov['replay_mismatches'] = ctx.cov.get('replay_mismatches', 0) + ndrift
+    _tick(ctx, 'simulate + replay')
     # code -> spec
     for item in impl_plan:
         n, w, outcomes, inits, cyclic, ncfg, per = item[:7]
@@ -492,13 +510,16 @@ def _common(ctx, invs, mc_runs, witnesses, impl_plan, sim_plan, dfs_plan):
         rng = random.Random(ctx.seed * 7919 + n * 31 + w + 1000 * calls)
         cfgs = [random_cfg(rng, n, w, outcomes, inits, cyclic, calls=calls) for _ in range(ncfg)]
         all_groups.setdefault((n, w, calls), []).extend(explore(ctx, cfgs, per, ctx.seed))
+    _tick(ctx, 'random/PCT exploration')
     for cfg, budget in dfs_plan:
         traces, nstates, complete = dfs_explore(ctx, cfg, budget)
         all_groups.setdefault((cfg['n'], cfg['workers'], cfg.get('calls', 1)), []).extend(traces)
         ctx.cov.setdefault('dfs', []).append(dict(cfg=cfg, executions=len(traces), distinct_states=nstates, complete=complete))
+    _tick(ctx, 'DFS exploration')
     for (n, w, calls), traces in sorted(all_groups.items()):
         for k in range(0, len(traces), 1500):
             judge_traces(ctx, traces[k:k + 1500], n, w, wd, tag='n%dw%dc%d_%d' % (n, w, calls, k), calls=calls)
+    _tick(ctx, 'trace validation by TLC')
     smp = next(iter(all_groups.values()))[0] if all_groups else None
     if smp:
         ctx.sample(dict(cfg=smp['cfg'], schedule=smp['schedule'], verdict=smp['verdict'], last_event=smp['events'][-1] if smp['events'] else None))
